@@ -472,7 +472,11 @@ def gen_case(rng, proj, pool, thorough):
         case["nomsg"] = case["nomsg"] + [rng.choice(["bogusId", "bogusId:%s" % case["order"][0]])]
         case["nofail"] = case["nofail"] + [rng.choice(["unmatchedSuppression", "unmatchedSuppression:%s" % case["order"][0], "*"])]
     if case["executor"] == "process" and rng.random() < 0.15:
+        # a killed worker: the model takes the lost pipe as input; what the dead worker would have contributed to the build dir
+        # (whole-program findings) and the parent's own critical cppcheckError under --safety are outside the model (C21)
         case["fault"] = rng.choice(case["order"])
+        case["bd"] = "none"
+        case["safety"] = False
     # duplicates are rejected by the command line parser only across identical parameters; keep lists duplicate free
     case["nomsg"] = list(dict.fromkeys(case["nomsg"]))
     case["nofail"] = list(dict.fromkeys(case["nofail"]))
